@@ -243,6 +243,21 @@ void wrote(const void*) {
   if (cfg.mode != M_CTL || tl_tid < 0) return;
   ++epoch;
   lastProgress = steps;
+  // a second scheduling point *after* a store / RMW: the plain (uninstrumented) accesses that follow it in
+  // program order can then be separated from it by other threads -- without this a racy "unlock; then tidy up
+  // the object" sequence would always execute atomically
+  if (!cfg.post_write) return;
+  int me = tl_tid;
+  ++steps;
+  if (steps > cfg.max_steps) abortRun("steplimit");
+  int next = chooseNext(me);
+  sched.push_back((unsigned char)next);
+  if (next != me) {
+    ++switches;
+    current = next;
+    sem_post(&slots[next].sem);
+    waitTurn(me);
+  }
 }
 
 static void regionReset() {
